@@ -6,6 +6,7 @@ import (
 	"flag"
 	"fmt"
 	"os"
+	"runtime/debug"
 	"strings"
 	"time"
 )
@@ -67,7 +68,7 @@ func Main() {
 		}
 		ch.Replay(c)
 	} else {
-		ch.Run(c)
+		runGuarded(ch, c)
 	}
 	if err := c.Finish(*out); err != nil {
 		fmt.Fprintln(os.Stderr, err)
@@ -79,3 +80,31 @@ type multi []string
 
 func (m *multi) String() string     { return strings.Join(*m, ",") }
 func (m *multi) Set(s string) error { *m = append(*m, s); return nil }
+
+// runGuarded is the safety net under every explorer: a panic that escapes it is attributed — to the
+// library when library frames are on the stack (a crash on an input inside the explored scope; the
+// driver reproduces it by re-running the deterministic shard), to the harness otherwise. Either way
+// the shard still writes its (partial) result.
+func runGuarded(ch Check, c *Ctx) {
+	defer func() {
+		r := recover()
+		if r == nil {
+			return
+		}
+		stack := TrimStack(string(debug.Stack()))
+		var frames []string
+		for _, f := range strings.Split(stack, " <- ") {
+			if f != "" && !strings.HasPrefix(f, "verifrt/") {
+				frames = append(frames, f)
+			}
+		}
+		if len(frames) > 0 {
+			c.Violate(Violation{Site: frames[0], Clause: "the library does not crash on an input inside the explored scope",
+				Class: "uncaught-panic", Detail: fmt.Sprintf("%v @ %s", r, strings.Join(frames, " <- "))})
+		} else {
+			c.HarnessError("explorer panicked: %v", r)
+		}
+		c.Cap("explorer aborted by a panic")
+	}()
+	ch.Run(c)
+}
